@@ -117,6 +117,20 @@ def sanitize (idCont : Nat → Bool) (keywords : List Str) (name : Str) : Str :=
     let r := (if isAsciiLetter c then c else 95) :: (cs.map translateChar).filter idCont
     if keywords.contains r then r ++ [95] else r
 
+/-- `self._name_sanitizer.sanitize(x) or "_"` — how every caller turns arbitrary text (a function name given by
+    the user, `stub.__name__`, `func.__name__` of a linked function, a `prefix_{n}` basis) into THE identifier that is
+    pasted into the source: converter_provider.py `_make_converter` (`closure_name`, written after `def`) and
+    `_register_mangled`; broaching/code_generator.py `GenState.register_mangled` (callee names). -/
+def closureName (idCont : Nat → Bool) (keywords : List Str) (name : Str) : Str :=
+  match sanitize idCont keywords name with
+  | [] => [95]
+  | r => r
+
+/-- `register_mangled(base, obj)` as it is really called: `base` is raw text, sanitised first. -/
+def registerMangledRaw (idCont : Nat → Bool) (keywords builtins : List Str) (ns : Namespace) (raw : Str) (obj : Nat)
+    (fuel : Nat) : Option (Str × Namespace) :=
+  registerMangled builtins ns (closureName idCont keywords raw) obj fuel
+
 /-- shape of an identifier: ASCII letter or `_`, then identifier characters -/
 def IdentShaped (idCont : Nat → Bool) : Str → Prop
   | [] => False
